@@ -1,8 +1,10 @@
 package checks
 
 import (
+	"bytes"
 	"encoding/json"
 	"fmt"
+	cocacmd "github.com/modernizing/coca/cmd"
 	"os"
 	"path/filepath"
 	"sort"
@@ -275,7 +277,7 @@ func Free(a string) string {
 }
 `
 
-var c08Scenarios = []string{"java-model", "graphs", "arch", "smells", "tests-and-api", "counts-and-evaluation", "git", "cloc", "go-frontend"}
+var c08Scenarios = []string{"java-model", "graphs", "arch", "smells", "tests-and-api", "counts-and-evaluation", "git", "cloc", "go-frontend", "cli-commands"}
 
 type c08Env struct {
 	dir    string
@@ -563,6 +565,44 @@ func c08Run(dir string, scenario string) c08Obs {
 		if len(erows) > 0 {
 			out = append(out, "no-language header: "+erows[0], "no-language rows:\n"+sortedLines(erows[1:]))
 		}
+	case "cli-commands":
+		// the command layer in-process (every flag given on every run, cobra keeps flag values between runs):
+		// what the commands print and write must not depend on map order either
+		// a private copy of the project per run: the commands write coca_reporter/ below the working directory
+		shared := dir
+		dir, err := os.MkdirTemp(tmpRoot(), "mcc08cli")
+		if err != nil {
+			panic(err)
+		}
+		defer os.RemoveAll(dir)
+		_ = shared
+		c08Setup(dir)
+		wd, _ := os.Getwd()
+		if err := os.Chdir(dir); err != nil {
+			panic(err)
+		}
+		defer os.Chdir(wd)
+		run := func(args ...string) string {
+			var buf bytes.Buffer
+			root := cocacmd.NewRootCmd(&buf)
+			root.SetArgs(args)
+			if err := root.Execute(); err != nil {
+				return "ERROR " + err.Error()
+			}
+			return strings.ReplaceAll(buf.String(), dir, "$DIR")
+		}
+		report := func(name string) string {
+			b, err := os.ReadFile(filepath.Join(dir, "coca_reporter", name))
+			if err != nil {
+				return name + ": MISSING"
+			}
+			return name + ":\n" + strings.ReplaceAll(string(b), dir, "$DIR")
+		}
+		out = append(out, "analysis: "+run("analysis", "-p", "proj", "-i=true"))
+		out = append(out, "api: "+run("api", "-f", "-p", "proj", "-c", "-s=false", "-a", "", "-r", "shop.web.,shop.", "-d", "coca_reporter/deps.json"), report("api.csv"), report("api.dot"))
+		out = append(out, "api (other order of names): "+run("api", "-f", "-p", "proj", "-c", "-s=false", "-a", "", "-r", "shop.,shop.web.", "-d", "coca_reporter/deps.json"), report("api.csv"))
+		out = append(out, "count: "+run("count", "-t", "0", "-d", "coca_reporter/deps.json"))
+		out = append(out, "arch: "+run("arch", "-H=true", "-P=false", "-x", "Service,Repo", "-v=false", "-d", "coca_reporter/deps.json"), report("arch.dot"))
 	case "go-frontend":
 		cf := (&goapp.GoIdentApp{}).Analysis(c08GoSrc, "proj/p/file.go")
 		for i, d := range cf.DataStructures {
@@ -766,7 +806,7 @@ func c08Explore(ctx *engine.Ctx) *engine.Report {
 				if o.Canon != b0.Canon {
 					cands = append(cands, engine.Candidate{Violation: engine.Violation{Clause: sc, Kind: "order-dependent@" + devSite,
 						Detail: fmt.Sprintf("scenario %s: with the map range at %s taking order #%d of its %d keys (schedule %v) the canonicalised result differs from the canonical schedule's: %s",
-							sc, devSite, t.Choices[len(t.Choices)-1], o.Events[len(t.Choices)-1].Keys, t.Choices, firstDiff(b0.Canon, o.Canon))},
+							sc, devSite, t.Choices[len(t.Choices)-1], c08KeysAt(o.Events, len(t.Choices)-1), t.Choices, firstDiff(b0.Canon, o.Canon))},
 						Desc: fmt.Sprintf("%s schedule %v", sc, t.Choices), Task: "c08", Input: c08Task{Dir: dir, Scenario: sc, Choices: t.Choices, Expect: engine.Hash(b0.Canon)}, Cost: len(t.Choices) + 100*dev})
 				}
 				for _, ov := range o.Order {
@@ -806,4 +846,37 @@ func c08Explore(ctx *engine.Ctx) *engine.Report {
 	cov["deviation_bound"] = maxDev
 	cov["bound_completed"] = maxDev
 	return rep
+}
+
+func init() {
+	// "mc c08debug <dir> <scenario>": range-event counts of three consecutive runs in one process (debugging aid)
+	engine.ExtraCmds["c08debug"] = func(args []string) {
+		c08Setup(args[0])
+		for i := 0; i < 3; i++ {
+			if engine.Reset != nil {
+				engine.Reset()
+			}
+			if SchedSet != nil {
+				SchedEvents(true)
+				SchedSet(func(alts int, site string) int { return 0 })
+			}
+			o := c08Run(args[0], args[1])
+			var evs []SchedEvent
+			if SchedSet != nil {
+				evs = SchedEvents(false)
+			}
+			sites := map[string]int{}
+			for _, e := range evs {
+				sites[e.Site]++
+			}
+			fmt.Printf("run %d: %d events, canon %s, sites %v\n", i, len(evs), engine.Hash(o.Canon), sites)
+		}
+	}
+}
+
+func c08KeysAt(evs []SchedEvent, i int) int {
+	if i >= 0 && i < len(evs) {
+		return evs[i].Keys
+	}
+	return -1
 }
